@@ -40,6 +40,9 @@ type World struct {
 	// Run performs one run. prop is the property being checked (worlds may
 	// bias nothing on it; it is used for filtering).
 	Run func(ch simrt.Chooser, prop string, keep bool) *Outcome
+	// Enum, if set, lists choice lists that are run first (run index i <
+	// len(list) replays list[i]): the exhaustively enumerated part of a check.
+	Enum func(prop string) [][]int
 }
 
 // ReplayFile is the artefact written for a violation.
@@ -81,6 +84,8 @@ type Stats struct {
 	WallS        float64        `json:"wall_s"`
 	HashFile     string         `json:"hash_file"`
 	ReplayChecks int            `json:"replay_selfchecks"`
+	Enumerated   int            `json:"enumerated"`
+	Extra        map[string]int `json:"extra,omitempty"`
 }
 
 func filter(vs []Violation, prop string) []Violation {
@@ -105,8 +110,17 @@ func Main(w World) {
 		minimise = flag.String("minimise", "", "replay file to minimise in place")
 		budget   = flag.Duration("budget", 0, "wall-clock budget for this block (0 = none)")
 		maxFail  = flag.Int("maxfail", 8, "distinct failing signatures to keep")
+		enumSize = flag.Bool("enumsize", false, "print the size of the enumerated part and exit")
 	)
 	flag.Parse()
+	var enum [][]int
+	if w.Enum != nil && *replay == "" && *minimise == "" {
+		enum = w.Enum(*prop)
+	}
+	if *enumSize {
+		fmt.Println(len(enum))
+		return
+	}
 	switch {
 	case *replay != "":
 		os.Exit(doReplay(w, *replay, *prop))
@@ -124,7 +138,12 @@ func Main(w World) {
 		if *budget > 0 && time.Since(start) > *budget {
 			break
 		}
-		rec := &simrt.Recorder{In: simrt.NewPRNG(*seed, run)}
+		var in simrt.Chooser = simrt.NewPRNG(*seed, run)
+		if run < uint64(len(enum)) {
+			in = simrt.NewTrace(enum[run])
+			st.Enumerated++
+		}
+		rec := &simrt.Recorder{In: in}
 		o := w.Run(rec, *prop, false)
 		st.Runs++
 		r := o.Res
